@@ -34,6 +34,7 @@ type rpf struct {
 	idxHook  func(r *rpf, ix *ast.IndexExpr) (*Val, bool)
 	stHook   func(r *rpf, lhs ast.Expr, v *Val) bool // store through an index/selector expression, recorded as an effect
 	steps    int
+	inTableLoop int
 }
 
 func vint(i int64) *Val  { return &Val{K: VInt, I: i} }
@@ -61,6 +62,11 @@ func (c *Ctx) rpfCall(fd *ast.FuncDecl, p *packages.Package, args []*Val, hooks 
 			panic(x)
 		}
 	}()
+	if hooks != nil {
+		for k, v := range hooks.env {
+			r.env[k] = v
+		}
+	}
 	i := 0
 	if fd.Recv != nil {
 		for _, f := range fd.Recv.List {
@@ -323,13 +329,14 @@ func (r *rpf) stmt(s ast.Stmt) *rpfReturn {
 			if x.Value != nil {
 				r.assign(x.Value, el, x.Tok == token.DEFINE)
 			}
-			for _, st := range x.Body.List {
-				if bs, ok := st.(*ast.BranchStmt); ok {
-					rpfFail("%s: branch statement in table loop", r.c.pos(bs.Pos()))
-				}
-				if ret := r.stmt(st); ret != nil {
-					return ret
-				}
+			r.inTableLoop++
+			ret, brk := r.loopIter(x.Body.List)
+			r.inTableLoop--
+			if ret != nil {
+				return ret
+			}
+			if brk {
+				break
 			}
 		}
 		return nil
@@ -741,6 +748,36 @@ func (r *rpf) expr(e ast.Expr) *Val {
 				}
 			}
 		}
+		// methods of repository types on literal struct receivers: fold the method body with the receiver bound
+		if fn, ok := callee.(*types.Func); ok {
+			if fd := r.c.funcDecl[fn]; fd != nil && fd.Recv != nil && fd.Body != nil {
+				if sel, ok := x.Fun.(*ast.SelectorExpr); ok {
+					if _, isMethod := info.Selections[sel]; isMethod {
+						base := r.expr(sel.X)
+						if base.K == VStruct {
+							var args []*Val
+							for _, a := range x.Args {
+								args = append(args, r.expr(a))
+							}
+							dp := r.c.declPkg[fd]
+							ro := recvObj(dp, fd)
+							hooks := &rpf{callHook: r.callHook, selHook: r.selHook, idxHook: r.idxHook, stHook: r.stHook, env: map[types.Object]*Val{}}
+							if ro != nil {
+								hooks.env[ro] = base
+							}
+							res, err := r.c.rpfCall(fd, dp, args, hooks)
+							if err != nil {
+								panic(err)
+							}
+							if len(res) == 1 {
+								return res[0]
+							}
+							rpfFail("%s: method with %d results in expression context", r.c.pos(x.Pos()), len(res))
+						}
+					}
+				}
+			}
+		}
 		// calls to package-level repository functions that are themselves in the fragment
 		if fn, ok := callee.(*types.Func); ok {
 			if fd := r.c.funcDecl[fn]; fd != nil && fd.Recv == nil && fd.Type.Results != nil && fd.Type.Results.NumFields() == 1 {
@@ -800,6 +837,16 @@ func (r *rpf) binop(op token.Token, a, b *Val, t types.Type, pos token.Pos) *Val
 			return vbool(a.B == b.B)
 		case token.NEQ:
 			return vbool(a.B != b.B)
+		}
+	}
+	if (a.K == VNil || b.K == VNil) && (op == token.EQL || op == token.NEQ) {
+		known := func(v *Val) bool { return v.K == VNil || v.K == VStruct || v.K == VList || v.K == VStr }
+		if known(a) && known(b) {
+			eq := a.K == VNil && b.K == VNil
+			if op == token.EQL {
+				return vbool(eq)
+			}
+			return vbool(!eq)
 		}
 	}
 	if a.K == VStr && b.K == VStr {
@@ -896,4 +943,51 @@ func (r *rpf) binop(op token.Token, a, b *Val, t types.Type, pos token.Pos) *Val
 	}
 	rpfFail("%s: operator %v outside the pure fragment", r.c.pos(pos), op)
 	return nil
+}
+
+type rpfLoopBreak struct{}
+
+// loopIter runs one iteration of a table loop; `continue` ends the iteration, `break` the loop.
+func (r *rpf) loopIter(body []ast.Stmt) (ret *rpfReturn, brk bool) {
+	defer func() {
+		if y := recover(); y != nil {
+			switch y.(type) {
+			case rpfContinue:
+				ret, brk = nil, false
+			case rpfLoopBreak:
+				ret, brk = nil, true
+			default:
+				panic(y)
+			}
+		}
+	}()
+	for _, st := range body {
+		if bs, ok := st.(*ast.BranchStmt); ok && bs.Label == nil {
+			if bs.Tok == token.CONTINUE {
+				return nil, false
+			}
+			if bs.Tok == token.BREAK {
+				return nil, true
+			}
+		}
+		if ret := r.stmtC(st); ret != nil {
+			return ret, false
+		}
+	}
+	return nil, false
+}
+
+// rpfCallWithGlobals folds fd with some package-level objects bound to given values (literal tables).
+func (c *Ctx) rpfCallWithGlobals(fd *ast.FuncDecl, p *packages.Package, args []*Val, hooks *rpf, globals map[types.Object]*Val) ([]*Val, error) {
+	h := &rpf{env: map[types.Object]*Val{}}
+	if hooks != nil {
+		h.callHook, h.selHook, h.idxHook, h.stHook = hooks.callHook, hooks.selHook, hooks.idxHook, hooks.stHook
+		for k, v := range hooks.env {
+			h.env[k] = v
+		}
+	}
+	for k, v := range globals {
+		h.env[k] = v
+	}
+	return c.rpfCall(fd, p, args, h)
 }
